@@ -105,7 +105,7 @@ fn shift_amount(rng: &mut Rng, wx: u64, wy: u64) -> RawIv {
         _ => return rand_raw(rng, wy, 0),
     }
     .min(smax(wy));
-    if rng.chance(1, 6) {
+    if rng.chance(1, 6) && v < smax(wy) {
         raw(v, (v + rng.range(1, 3) as i128).min(smax(wy)), 1, wy)
     } else {
         raw(v, v, 0, wy)
